@@ -9,7 +9,8 @@ pool, a background writer or a timer into, say, a dumper does not escape the sim
                                                  unless the scheduler hands it the baton
     queue.Queue.get / put / join                 blocking variants park the task in the scheduler (virtual timeouts)
     queue.SimpleQueue (name)                     replaced by a simulated FIFO (concurrent.futures' work queue)
-    threading.Event.wait                         parks in the scheduler
+    threading.Event.wait, Semaphore.acquire      park in the scheduler
+    threading.Condition.wait                     harness error (no verdict) if a simulated task ever reaches it
     threading.Thread.__hash__                    creation order instead of memory address (concurrent.futures joins its
                                                  workers in set-iteration order: a forgotten source of nondeterminism)
     concurrent.futures.Future.result / exception parks in the scheduler until the future is done
@@ -35,7 +36,7 @@ from . import sched as S
 _REAL = {
     'start': _threading.Thread.start, 'join': _threading.Thread.join, 'is_alive': _threading.Thread.is_alive,
     'q_get': _queue.Queue.get, 'q_put': _queue.Queue.put, 'q_join': _queue.Queue.join, 'SimpleQueue': _queue.SimpleQueue,
-    'ev_wait': _threading.Event.wait, 'sleep': _time.sleep,
+    'ev_wait': _threading.Event.wait, 'sleep': _time.sleep, 'sem_acquire': _threading.Semaphore.acquire, 'cond_wait': _threading.Condition.wait,
 }
 
 STRATEGIES = ['uniform', 'uniform', 'pct2', 'pct3', 'sticky', 'starve']
@@ -196,6 +197,20 @@ class Ambient:
                 return a.sched.sleep(d)
             return _REAL['sleep'](d)
 
+        def sem_acquire(sem, blocking=True, timeout=None):
+            if a.in_sim() and a.multi() and blocking:
+                if not a.sched.block(lambda: sem._value > 0, timeout, 'semaphore.acquire'):
+                    return False
+                return _REAL['sem_acquire'](sem, False)
+            return _REAL['sem_acquire'](sem, blocking, timeout)
+
+        def cond_wait(cond, timeout=None):
+            if a.in_sim() and a.multi():
+                # every blocking call built on a Condition that the seam knows is diverted before it gets here
+                from ..core.ctx import HarnessError
+                raise HarnessError('unsimulated primitive threading.Condition.wait used by the code under test (no verdict)')
+            return _REAL['cond_wait'](cond, timeout)
+
         # concurrent.futures keeps its worker threads in a set() and joins them in iteration order: hash by creation
         # order instead of by address, or the join order (a run of scheduling points) would vary from process to process
         seq = [0]
@@ -216,6 +231,9 @@ class Ambient:
         _queue.SimpleQueue = SimSimpleQueue
         _threading.Event.wait = ev_wait
         _time.sleep = sleep
+        _threading.Semaphore.acquire = sem_acquire
+        _threading.Semaphore.__enter__ = sem_acquire
+        _threading.Condition.wait = cond_wait
         try:
             import concurrent.futures._base as cfb
             import concurrent.futures.thread as cft
@@ -253,6 +271,9 @@ class Ambient:
         _queue.SimpleQueue = _REAL['SimpleQueue']
         _threading.Event.wait = _REAL['ev_wait']
         _time.sleep = _REAL['sleep']
+        _threading.Semaphore.acquire = _REAL['sem_acquire']
+        _threading.Semaphore.__enter__ = _REAL['sem_acquire']
+        _threading.Condition.wait = _REAL['cond_wait']
         if self._cf:
             import concurrent.futures._base as cfb
             cfb.Future.result, cfb.Future.exception = self._cf[0], self._cf[1]
